@@ -15,7 +15,7 @@ C21 line protocol.
   rr <n> <start> ops...     a real round-robin router (n routees, counter preset); ops: m (route one
         message), k<i> (stop routee i behind the router's back)
         impl  per m: o=<slice order>;r=<receiver|panic|dead|none|noroutees>;z=<map size afterwards>
-        model per m: s=<map ids>;i=<index|panic|noroutees>;d=<stopped ids>;z=<map size afterwards>
+        model per m: s=<the slice: running routees, sorted>;i=<index|noroutees>;d=;z=<map size afterwards>
         (tools/props/c21.py joins the two through the observed order); last token c=<counter>
   fan <n> <start> ops...    the same with FanOutRouting: r=<receivers sorted>
 -/
@@ -81,20 +81,17 @@ def routeRun (fan : Bool) : Router → List String → List String → Option (L
   | r, [], acc => some (("c=" ++ toString r.next) :: acc).reverse
   | r, op :: ops, acc =>
     if op = "m" then
-      let ids := sortNat r.ids
-      let dead := sortNat ((r.members.filter (fun e => !e.2)).map (·.1))
-      let r1 := (available r ids).2
+      -- the slice: running routees, sorted (any iteration order gives the same slice)
+      let (ids, r1) := available r r.ids
       let z := r1.members.length
       if fan then
-        routeRun fan r1 ops (s!"s={joinC ids};i=fan;d={joinC dead};z={z}" :: acc)
+        routeRun fan r1 ops (s!"s={joinC ids};i=fan;d=;z={z}" :: acc)
       else if ids.isEmpty then
         routeRun fan r1 ops (s!"s=;i=noroutees;d=;z={z}" :: acc)
       else
-        let n := (r1.next + 1) % 2 ^ 32
-        let idx := rrIndex n ids.length
-        let r2 := { r1 with next := n }
-        let i := if idx < 0 then "panic" else toString idx
-        routeRun fan r2 ops (s!"s={joinC ids};i={i};d={joinC dead};z={z}" :: acc)
+        let idx := (r1.next % 2 ^ 32) % ids.length
+        let r2 := { r1 with next := (idx + 1) % ids.length }
+        routeRun fan r2 ops (s!"s={joinC ids};i={idx};d=;z={z}" :: acc)
     else if op.startsWith "k" then
       match (op.drop 1).toString.toNat? with
       | some i => routeRun fan { r with members := r.members.map fun e => if e.1 = i then (e.1, false) else e } ops ("k" :: acc)
